@@ -151,6 +151,11 @@ def run(chk: Check):
         cfg = gen_cfg(rng, k_samplers=rng.choice([2, 3, 5, 9]))
         cfg["sched"] = "rl" if i % 4 == 3 else "rr"
         n = rng.randint(2, 6)
+        if cfg["sched"] == "rl":
+            # an agent that explores always / often / sometimes: with epsilon 1 every action is a draw of the agent's generator, so a generator that is not the
+            # one the calibrator seeded shows at the first action it takes
+            cfg["agent_eps"] = [1.0, 0.6, 0.2][(i // 4) % 3]
+            chk.count(f"rl_agent:epsilon={cfg['agent_eps']}")
         if i % 4 == 1:
             # non-finite losses in the history (a diverging simulation): samplers that tolerate them, and always a history-driven one
             cfg["loss"] = "infmix"
@@ -181,7 +186,7 @@ def run(chk: Check):
         use_folder = rng.random() < 0.5 and cfg["sched"] == "rr"
         if use_folder:
             changed.append("folder")
-        if rng.random() < 0.7:
+        if rng.random() < 0.7 or cfg["sched"] == "rl":
             other["lineup"] = [(nm, bs, rng.randrange(10 ** 4)) for (nm, bs, _) in cfg["lineup"]]; changed.append("ctor_seeds")
             other["agent_ctor_seed"] = rng.randrange(100)
         if cfg["loss"] == "infmix" and "verbose" not in changed:
